@@ -84,6 +84,9 @@ def scope_arg(e, cur):
 
 def iter_cases(ctx, rng, n):
   for i in range(n):
+    if i % 200 == 57:
+      yield {'kind': 'function-named-like-renamed-method'}
+      continue
     if i % 40 == 17:
       yield {'kind': 'decorated-shift', 'bind': [x for x in ('p0', 'p1', 'k') if rng.random() < 0.6], 'npos': rng.choice([0, 1, 1, 2]),
              'kw': [x for x in ('p1', 'k') if rng.random() < 0.3], 'scope': rng.choice(['', 'a', 'a/b']), 'api': rng.choice(['configurable', 'external']),
@@ -280,6 +283,8 @@ def bind_under(ctx, gin, p, scope, param, api, x, value, active, what):
 
 def run_case(ctx, case):
   import gin
+  if case.get('kind') == 'function-named-like-renamed-method':
+    return run_function_named_like_renamed_method(ctx, case)
   if case.get('kind') == 'decorated-shift':
     return run_decorated_shift(ctx, case)
   spec = case['spec']
@@ -642,6 +647,34 @@ def run_decorated_shift(ctx, case):
   ctx.check(ok, 'reception-differs-from-model', 'decorated configurable (wrapper(ctx, *args, **kw) around inner(p0, p1, *, k)) called with %d positional after ctx and keywords %r '
             'under %r, bindings %r at scope %r: inner received %r, expected %r' % (npos, sorted(K), case['scope'], sorted(bound), case['bscope'], got, expect))
   ctx.fp('shift', npos, tuple(sorted(K)), tuple(sorted(bound)), case['scope'], case['bscope'], case['api'])
+
+
+_RN = [0]
+
+
+def run_function_named_like_renamed_method(ctx, case):
+  """A plain function registered under the complete name a method had before its class was registered (the method was renamed to
+  Class.method then): the function receives its own bindings and defaults, not the method's."""
+  import gin
+  gin.clear_config()
+  _RN[0] += 1
+  mod = 'c1rn%d_%s' % (_RN[0], ctx.uid)
+  g = {'gin': gin, '__name__': mod}
+  exec('class K:\n  def __init__(self, c=0):\n    self.c = c\n  @gin.register\n  def run(self, steps=1):\n    return ("K.run", steps)\n'
+       'def run(steps=1, other=2):\n  return ("run", steps, other)\n', g)
+  gin.register(g['K'])
+  gin.bind_parameter('%s.K.run.steps' % mod, 5)
+  frun = gin.external_configurable(g['run'], 'run', module=mod)
+  gin.bind_parameter('%s.run.other' % mod, 9)
+  ctx.bucket('shape:function-named-like-renamed-method')
+  try:
+    got = (frun(), gin.get_configurable(g['K'])().run())
+  except Exception as e:  # pylint: disable=broad-except
+    got = 'raised %r' % (e,)
+  ctx.count('calls_compared')
+  ctx.check(got == (('run', 1, 9), ('K.run', 5)), 'function-named-like-renamed-method-receives-the-methods-bindings',
+            'method K.run (steps bound to 5) and a function registered as <module>.run (other bound to 9): calls returned %r, expected (run, 1, 9) and (K.run, 5)' % (got,))
+  gin.clear_config()
 
 
 def same_value(e, g, from_caller=False):
